@@ -462,6 +462,10 @@ def compileStep (src : Str) (opts : TemplateOptions) (fuel : Nat) (st : CState) 
       else do
         let stk ← frontMut "tpl.trailing.front" st.tmplStack (·.pushElement el line col)
         pure { st with tmplStack := stk, trimLine := false }
+    else if st.omitProWs && t.s != prevEnd && rule != some .r_template && rule != some .r_raw_text
+        && rule != some .r_raw_block_text then
+      -- the whitespace after a `~}}` tag is dropped as a whole, and with it the line a standalone tag ends
+      pure { st with trimLine := false }
     else pure st)
   let (st, it) ← (
     if rule == some .r_template then
